@@ -1,209 +1,35 @@
 """C18 — the token index and every rule's region of interest mirror the token list.
 
-Invariants asserted at hooks on the real objects during real fix + check runs:
- (a) at entry of every rule.analyze:  oTokenMap.dMap == process_tokens(lAllObjects).dMap;
- (b) every region of interest handed out (results of rule._get_tokens_of_interest and of every
-     vhdlFile.get_* extraction method): lAllObjects[s : s+len] *is* (by identity, ignoring
-     beginning_of_file) toi.lTokens, and iEndIndex == s+len;
- (c) at vhdlFile.update: every splice lies inside the list and, at the moment it is applied,
-     removes only tokens that were in that violation's analysed region (recorded at add_violation)
-     or that this same update call has just put there (VSG legitimately uses regions that share a
-     boundary token); the list after the call equals the independent splice model;
- (d) after an update by a rule with remap False, the index is still exact (culprit attribution).
-"""
-import json
-import time
-
-from lib import fixrun, harness, monitors, vsgapi
+Invariants asserted at hooks on the real objects during real fix + check runs (lib/fixmon.C18Sink):
+ (a) at entry of every rule.analyze: oTokenMap.dMap == process_tokens(lAllObjects).dMap;
+ (b) every region handed out (rule._get_tokens_of_interest and every vhdlFile.get_* extraction
+     method): lAllObjects[s:s+len] *is* (identity) toi.lTokens and iEndIndex == s+len;
+ (c) at vhdlFile.update: every splice lies inside the list and removes only tokens that were in that
+     violation's analysed region or that the same call has just put there; result equals the
+     independent splice model;
+ (d) after an update by a remap-False rule the index is still exact."""
+from lib import fixmon
 
 PROP = "C18"
 
 
-class Sink(monitors.Sink):
-    def __init__(self):
-        self.v = []  # (key, detail)
-        self.n = {"map_checks": 0, "toi_checked": 0, "updates": 0, "nonempty_updates": 0, "remap_false_updates": 0}
-        self.rules_seen = set()
-        self.extractors = set()
-        self.analysed = {}
-
-    def _add(self, key, detail):
-        if len(self.v) < 40:
-            self.v.append((key, detail))
-
-    def _map_ok(self, oFile):
-        from vsg.token_map import process_tokens
-
-        self.n["map_checks"] += 1
-        return process_tokens(oFile.lAllObjects).dMap == oFile.oTokenMap.dMap
-
-    def analyze_before(self, rule, oFile):
-        if not self._map_ok(oFile):
-            self._add("%s:stale-map-at-analyze" % rule.unique_id, {"rule": rule.unique_id})
-
-    def toi(self, rule, oFile, name, result):
-        from vsg import parser
-        from vsg.vhdlFile.extract import tokens as ext
-
-        rid = rule.unique_id if rule is not None else "<none>"
-        self.rules_seen.add(rid)
-        self.extractors.add(name)
-        items = result if isinstance(result, list) else [result]
-        L = oFile.lAllObjects
-        for t in items:
-            if not isinstance(t, ext.New):
-                continue
-            self.n["toi_checked"] += 1
-            lt = [x for x in t.get_tokens() if not isinstance(x, parser.beginning_of_file)]
-            s = t.get_start_index()
-            who = rid if name == "_get_tokens_of_interest" else name
-            if not isinstance(s, int):
-                self._add("%s:start-not-int" % who, {"rule": rid, "via": name, "start": repr(s)})
-                continue
-            sl = L[s : s + len(lt)]
-            if s < 0 or len(sl) != len(lt) or any(a is not b for a, b in zip(sl, lt)):
-                self._add("%s:not-slice" % who, {"rule": rid, "via": name, "start": s, "toi": [x.get_value() for x in lt[:6]], "list_at_start": [x.get_value() for x in sl[:6]]})
-                continue
-            if t.iEndIndex != s + len(lt):
-                self._add("%s:end-mismatch" % who, {"rule": rid, "via": name, "start": s, "end": t.iEndIndex, "len": len(lt)})
-
-    def violation_added(self, rule, violation, accepted):
-        if accepted:
-            try:
-                self.analysed[id(violation)] = (violation, set(id(t) for t in violation.oTokens.get_tokens()))
-            except Exception:
-                pass
-
-    def fix_before(self, rule, oFile):
-        self.analysed = {}
-
-    def update_before(self, rule, oFile, lUpdates, bUpdateMap):
-        from vsg import parser
-
-        self.n["updates"] += 1
-        L = oFile.lAllObjects
-        model = list(L)
-        rid = rule.unique_id if rule is not None else "<none>"
-        ok = True
-        inserted = set()
-        for u in lUpdates[::-1]:
-            s, e = u.oTokens.iStartIndex, u.oTokens.iEndIndex
-            if not isinstance(s, int) or not isinstance(e, int) or s < 0 or e < s or e > len(model):
-                self._add("%s:update-range-out-of-list" % rid, {"rule": rid, "start": repr(s), "end": repr(e), "len": len(model)})
-                ok = False
-                break
-            rec = self.analysed.get(id(u))
-            if rec is not None:
-                allowed = rec[1]
-                stray = [t for t in model[s:e] if id(t) not in allowed and id(t) not in inserted]
-                self.n["splices_checked"] = self.n.get("splices_checked", 0) + 1
-                if stray:
-                    self._add("%s:overwrites-unanalysed-token" % rid, {"rule": rid, "start": s, "end": e, "stray": [t.get_value() for t in stray[:5]]})
-            new = [x for x in u.get_tokens() if not isinstance(x, parser.beginning_of_file)]
-            inserted.update(id(x) for x in new)
-            model[s:e] = new
-        return (rid, model if ok else None, len(lUpdates), bUpdateMap)
-
-    def update_after(self, rule, oFile, lUpdates, bUpdateMap, ctx):
-        rid, model, n, bUpdateMap = ctx
-        if n:
-            self.n["nonempty_updates"] += 1
-        if model is not None:
-            L = oFile.lAllObjects
-            if len(L) != len(model) or any(a is not b for a, b in zip(L, model)):
-                self._add("%s:splice-differs-from-model" % rid, {"rule": rid, "len_real": len(L), "len_model": len(model)})
-        if n and not bUpdateMap:
-            self.n["remap_false_updates"] += 1
-            if not self._map_ok(oFile):
-                self._add("%s:stale-map-after-remap-false-update" % rid, {"rule": rid})
-
-
 def run_case(case):
-    r = fixrun.setup(case)
-    if isinstance(r, dict):
-        return r
-    oFile, oRules, a, oConfig = r
-    sink = Sink()
-    inst = monitors.Instrument(oFile, oRules, [sink], wrap_get=True)
-    crash = None
-    try:
-        oRules.fix()
-        oRules.clear_violations()
-        oRules.check_rules(bAllPhases=True)
-    except harness.CpuTimeout:
-        raise
-    except Exception as e:
-        import traceback
-
-        crash = {"exc": type(e).__name__, "frame": fixrun.vsg_frame(traceback.format_exc())}
-    return {
-        "violations": [{"key": k, "detail": d} for k, d in sink.v],
-        "n": sink.n,
-        "reach": dict(inst.reach),
-        "rules": len(sink.rules_seen),
-        "extractors": sorted(sink.extractors),
-        "crash": crash,
-    }
+    return fixmon.run(case, {PROP})
 
 
 def main(tier):
-    t0 = time.time()
-    seed = harness.seed()
-    cases = fixrun.universe(tier, seed, 500, 8000)
-    results = harness.run_cases("props.c18", cases, cpu=300, wall=1500)
-    V = harness.Verdict(PROP)
-    tot = {}
-    ok_cases = set()
-    extractors = set()
-    crashes = 0
-    for c, r in zip(cases, results):
-        st = r.get("status", "ok")
-        if st in ("harness_error", "worker_died", "inconclusive", "hang"):
-            V.note_inconclusive("%s %s %s" % (fixrun.case_name(c), st, str(r.get("detail"))[:200]))
-            continue
-        if st != "ok":
-            tot[st] = tot.get(st, 0) + 1
-            continue
-        for k, v in r["n"].items():
-            tot[k] = tot.get(k, 0) + v
-        extractors.update(r["extractors"])
-        if r.get("crash"):
-            crashes += 1  # C19's business; the monitors still observed everything up to the crash
-        if r["n"]["toi_checked"] > 0 and r["n"]["nonempty_updates"] > 0:
-            ok_cases.add(fixrun.case_name(c))
-        for v in r["violations"]:
-            V.violation(v["key"], c, v["detail"])
-    if tot.get("toi_checked", 0) < 10000 or tot.get("map_checks", 0) < 10000 or tot.get("nonempty_updates", 0) < 200:
-        V.note_inconclusive("monitors reached too little: %s" % tot)
-    rc = V.finish()
-    harness.write_evidence(
+    return fixmon.drive(
         PROP,
+        "props.c18",
         tier,
-        "exploration",
-        {
-            "evaluations": len(cases),
-            "distinct_nontrivial": len(ok_cases),
-            "rule": "one evaluation per (input, variant, configuration) fix+check run; non-trivial = at least one region of interest was checked and at least one non-empty update was spliced; distinct by case description",
-            "samples": [{"case": c, "counters": r.get("n")} for c, r in list(zip(cases, results))[:3]],
-            "monitor_counters": tot,
-            "extraction_methods_observed": sorted(extractors),
-            "runs_ending_in_exception(C19)": crashes,
-            "known_findings_hit": sorted(V.known_hit),
-            "inconclusive": V.inconclusive[:10],
-        },
-        time.time() - t0,
-        len(V.unknown),
-        assumptions=["vsg.token_map.process_tokens over the current list is the definition of a correct index", "identity comparison of token objects"],
+        5500,
+        30000,
+        rule_text='one evaluation per monitored fix+check run; non-trivial = regions were checked and a non-empty update was spliced; counters in monitor_totals.n',
+        assumptions=['vsg.token_map.process_tokens over the current list defines a correct index', 'identity comparison of token objects'],
+        min_nontrivial=200,
+        universe_kw={},
     )
-    return rc
 
 
 def replay(path):
-    with open(path) as f:
-        d = json.load(f)
-    res = run_case(d["case"])
-    print(json.dumps(res, indent=1, default=str)[:4000])
-    if res.get("violations"):
-        print("VIOLATION property=%s replay=%s" % (PROP, path))
-        return 1
-    return 0
+    return fixmon.replay(PROP, path)
